@@ -12,7 +12,7 @@ import (
 )
 
 func init() {
-	register("C17", "Structural clauses of the tar export, decided on all paths of WriteTar's callback: the header is built by tar.FileInfoHeader from the view's FileInfo and link name, then Name (slash form, trailing slash for directories), Uid, Gid, Devmajor, Devminor and Linkname are overridden from the stat before WriteHeader; entries with a link name get size 0 and the symlink or hard-link type according to the mode; every xattr becomes a SCHILY.xattr.<key> PAX record; a payload is copied (checked, from Open of the walked path, closed) only for regular, non-empty, non-link members; the archive is closed as the success return after a checked walk. Only directories get a trailing slash; an entry is written exactly when its info carries a stat; the FileInfo view the header is built from (StatInfo) projects the stat's own size, mode, name and mtime (seconds, then nanoseconds). Does not decide well-formedness (archive/tar, trusted) nor the round trip.", runC17)
+	register("C17", "Structural clauses of the tar export, decided on all paths of WriteTar's callback: the header is built by tar.FileInfoHeader from the view's FileInfo and link name, then Name (slash form, trailing slash for directories), Uid, Gid, Devmajor, Devminor and Linkname are overridden from the stat before WriteHeader; entries with a link name get size 0 and the symlink or hard-link type according to the mode; every xattr becomes a SCHILY.xattr.<key> PAX record; a payload is copied (checked, from Open of the walked path, closed) only for regular, non-empty, non-link members; the archive is closed as the success return after a checked walk. Only directories get a trailing slash; an entry is written exactly when its info carries a stat; the FileInfo view the header is built from (StatInfo) projects the stat's own size, mode, name and mtime (seconds, then nanoseconds). Device numbers are decoded from the device word in full (shared with C02). Does not decide well-formedness (archive/tar, trusted) nor the round trip.", runC17)
 }
 
 func runC17(c *Ctx) {
@@ -38,6 +38,10 @@ func runC17(c *Ctx) {
 	r04_15(c, "R17.8")
 	// tar.FileInfoHeader takes size, mode and mtime from the entry's FileInfo
 	r17_9(c, "R17.9")
+	if c.Unix() {
+		// device members carry the numbers of the nodes: decoded in full (shared with C02)
+		r02_8(c, "R17.10")
+	}
 }
 
 // R17.9: the FileInfo view of a stat projects the stat's own fields.
